@@ -186,6 +186,14 @@ func (c *check) Init(tier string, seed int64) engine.Space {
 	c.add("structure-x-line-height", pd, slots{st: allStruct(), lh: allLH}, 12)
 	c.add("structure-x-align", pd, slots{st: allStruct(), align: allAlign}, 12)
 	c.add("structure-x-indent", paragraphs(3, lens4, spaceOnly), slots{st: allStruct(), indent: allIndent}, 12)
+	// D". an atomic inline in the middle of a justified line: with text-align-last: justify the line that holds
+	// the whole paragraph (and every last line) is justified as well, with the atomic inline between two words
+	atomicSt := []int{stIBlock, stIBlockTx, stIBlockSp, stITableSp, stIFlexSp}
+	pj := paragraphs(3, lens3, spaceOnly)
+	if thorough {
+		pj = paragraphs(4, lens3, spaceOnly)
+	}
+	c.add("atomic-x-align-x-last-justify", pj, slots{st: atomicSt, align: allAlign, last: []string{"justify"}}, 12)
 	// D'. a span glued to the preceding text (no break opportunity at its start) x every white-space mode: the line
 	// overflows inside the span and must be broken at an opportunity inside the earlier sibling
 	c.add("glued-x-white-space", paragraphs(3, lens4, spaceOnly), slots{st: []int{stGlued, stSpan, stNested}, ws: allWS}, 12)
@@ -205,7 +213,7 @@ func (c *check) Init(tier string, seed int64) engine.Space {
 		c.add("structure-x-wrap", paragraphs(3, lens4, spaceOnly), slots{st: allStruct(), wrap: allWrap}, 12)
 		c.add("structure-x-align-x-line-height", paragraphs(3, lens3, spaceOnly), slots{st: allStruct(), align: allAlign, lh: allLH, indent: allIndent}, 12)
 	} else {
-		c.add("structure-x-separators", pf, slots{st: []int{stSpan, stMarginL, stNested, stIBlock, stBigFont}}, 12)
+		c.add("structure-x-separators", pf, slots{st: []int{stSpan, stMarginL, stNested, stIBlock, stBigFont, stIBlockSp}}, 12)
 	}
 	// G. the second text engine
 	gotext := []string{"gotext"}
@@ -300,7 +308,7 @@ func compatible(p para, r row) bool {
 			return false
 		}
 	}
-	if r.st == stIBlock || r.st == stIBlockTx {
+	if isAtomicStruct(r.st) {
 		// Between an atomic inline and an adjacent no-break space or hyphen, CSS Text 3 (2020, "for
 		// Web-compatibility") puts a soft wrap opportunity where its earlier drafts (atomic inline =
 		// class ID of UAX #14, followed by the implementation) had none: not asserted.
@@ -356,7 +364,7 @@ func defaultRowWith(r row) row {
 
 func features(p para, r row, w int) []string {
 	f := []string{"ws:" + r.ws}
-	if avail := float64(w) * 10; avail-r.indent < 0 || ((r.st == stIBlock || r.st == stIBlockTx) && avail < ibWidth) {
+	if avail := float64(w) * 10; avail-r.indent < 0 || (isAtomicStruct(r.st) && avail < atomics[r.st].width) {
 		// text is laid out in a negative width (after the indent, or after an atomic inline wider than the line)
 		f = append(f, "negative-room")
 	}
@@ -379,8 +387,11 @@ func features(p para, r row, w int) []string {
 	}
 	if r.st != stNone {
 		f = append(f, "struct:"+structName[r.st])
-		if r.st == stIBlock || r.st == stIBlockTx {
+		if isAtomicStruct(r.st) {
 			f = append(f, "atomic-inline")
+			if strings.Contains(atomics[r.st].text, " ") {
+				f = append(f, "space-inside-atomic-inline")
+			}
 		} else {
 			f = append(f, "inline-box")
 		}
